@@ -542,6 +542,7 @@ package file
 // clause behind that call vacuous.)
 
 //@ func (*Job).seek
+//@   requires held(j.mu)
 //@   ghost pos int = 0
 //@   ghost nseek int = 0
 //@   modifies j.curOffset
